@@ -284,7 +284,36 @@ one_desc(uint64_t idx, uint64_t k, vh_rng *rg)
         expect_uninitialised("when=before-init", ctx);
     struct viol v[8 + 4 * RT_MAXREGS];
     int nv = collect(&d, v);
+    /* one well-formed description in five with a callback-backed area that loads defaults meets a device that
+     * refuses one word: the default of the register there cannot be loaded, so initialisation cannot succeed
+     * (which rule it names is not judged) and the table must come out uninitialised */
+    rt_cb_fail_area = -1;
+    rt_cb_fail_hits = 0;
+    if (nv == 0 && vh_chance(rg, 1, 5)) {
+        for (int i = 0; i < d.nregs && rt_cb_fail_area < 0; i++) {
+            int ai = rt_area_of(&d, d.reg[i].addr);
+            if (ai >= 0 && d.area[ai].custom && d.area[ai].has_write && rt_area_loads_defaults(&d.area[ai]) && vh_chance(rg, 1, 2)) {
+                rt_cb_fail_area = ai;
+                rt_cb_fail_word = d.reg[i].addr - d.area[ai].base + (uint32_t)vh_below(rg, rt_tsize[d.reg[i].type]);
+                rt_cb_fail_code = vh_chance(rg, 1, 2) ? REG_ACCESS_IO_ERROR : REG_ACCESS_FAILURE;
+            }
+        }
+    }
     RegisterInit ri = register_init(&inst.t);
+    if (rt_cb_fail_area >= 0) {
+        rt_cb_fail_area = -1;
+        VH_COUNT("device refusing a default while the table is initialised");
+        if (rt_cb_fail_hits == 0 && ri.code == REG_INIT_SUCCESS) {
+            check_success(ctx); /* the word was never written: nothing was refused */
+            return;
+        }
+        if (ri.code == REG_INIT_SUCCESS)
+            vh_fail("unloadable-default-accepted", "expected=failure", "%s: the write callback refused a word of a default (%u refusals), "
+                    "initialisation reports success", ctx, rt_cb_fail_hits);
+        else
+            expect_uninitialised("when=after-device-refusal", ctx);
+        return;
+    }
     if (nv == 0) {
         VH_COUNT("expected: success");
         if (ri.code != REG_INIT_SUCCESS) {
@@ -452,6 +481,7 @@ harness_run(void)
                                  "rule-major and index-major readings differ (both accepted)",
                                  "table with more than 65536 registers",
                                  "initialisation of a table object that was initialised before",
+                                 "device refusing a default while the table is initialised",
                                  "failed re-initialisation: no-areas", "failed re-initialisation: area-order",
                                  "failed re-initialisation: area-overlap", "failed re-initialisation: entry-order",
                                  "failed re-initialisation: entry-overlap", "failed re-initialisation: entry-in-hole",
